@@ -61,10 +61,10 @@ Definition run (fields : list str) : list str :=
         | _ => BAD
         end
       else if tag_is tag [114;116;49] then
-        (* "rt1" type sign : unary operator on an operand typed as the dump spells it *)
+        (* "rt1" op(0 arith, 1 incdec) type sign : unary operator on an operand typed as the dump spells it *)
         match args with
-        | [t1; s1] => match vtype_of_name t1 with
-                      | Some a => vt_out (result_type1 (mkVt a (vsign_of_name s1)))
+        | [o; t1; s1] => match vtype_of_name t1 with
+                      | Some a => vt_out (result_type1 (if nd o =? 0 then UArith else UIncDec) (mkVt a (vsign_of_name s1)))
                       | None => BAD
                       end
         | _ => BAD
